@@ -133,3 +133,21 @@ for _pid in ('C23', 'C24'):
     PROPS[_pid]['quick'] = [('content:general', 1000), ('cursor:general', 2500)]
     PROPS[_pid]['thorough'] = [('content:general', 40000), ('cursor:general', 150000)]
     PROPS[_pid]['rule'] += '; additionally every finished S-cursor query (store faults, cancellation, Close, stalled consumers, blocks of up to 300 rows)'
+
+MERGE_ASSUME = ['one P, cooperative scheduling at synchronisation operations', 'SimDisk/SimMeta follow the DataStore/MetaStore contracts (atomic Update; a failed call has no effect; late-err Close publishes then reports failure)']
+PROPS['C11'] = {'level': 'exploration', 'quick': [('merge:content', 1500)], 'thorough': [('merge:content', 60000)],
+    'rule': 'seeded S-merge runs: populations of small files flushed under 1-3 differing engine configs (compression, fp rate, partition function, minmax key sets, limits), then 1-3 Merge rounds under a '
+            'drawn merge config; census and a 10-30 query panel before and after every committed merge; non-trivial = a merge committed; distinct = distinct decision sequences',
+    'assumptions': MERGE_ASSUME}
+PROPS['C12'] = dict(PROPS['C11'], rule='same runs as C11; oracle from the Update call and the before/after census: combined blocks within MaxRowGroupRows/Bytes and from one partition + one minmax key set, '
+            'sources per Merge <= MaxFilesToMergePerOperation, source bytes per output <= MaxFileSize; non-trivial = a merge committed')
+PROPS['C13'] = {'level': 'fault_enumeration', 'exhaustive': True, 'env': {'SIM_ENUM': '1'},
+    'quick': [('merge:faults', 24)], 'thorough': [('merge:faults', 1500)],
+    'rule': 'per sampled merge history (seed): one fault-free reference execution, then one re-execution per store call position of the merge (iterator start/yield, CreateFile, OpenFile, Read, Write, Close, '
+            'Abort, Update, TombstoneFile, handle Close) with an injected error there, plus short-write/short-read/late-error variants, with a second Merge call racing the first; '
+            'exhaustive per history over single-fault positions (capped at 600 positions); non-trivial = the fault fired; distinct = distinct decision sequences',
+    'assumptions': MERGE_ASSUME}
+PROPS['C14'] = {'level': 'exploration', 'quick': [('merge:concurrent', 3000)], 'thorough': [('merge:concurrent', 150000)],
+    'rule': 'seeded runs: 1-2 writers ingesting/flushing, a merger calling Merge repeatedly, 1-3 readers issuing match-all queries whose MetaStore iteration, opens and reads are gated, '
+            'SimMeta or the real MemoryMetaStore, eager or lazy tombstones, coarse and fine schedules; non-trivial = a query finished with nil error; distinct = distinct decision sequences',
+    'assumptions': MERGE_ASSUME}
